@@ -46,11 +46,20 @@ def family(tier):
             for kt in (None, "identifier", "ipaddr-or-hostname"):
                 for p in (0, 1, 2):
                     fam.append((lab, items, p, kt, {}, 5))
+        # deeper / wider: every pair of the reduced menu to depth 4, and every third ordered TRIPLE of the reduced
+        # menu to depth 3 (three items interact: wildcard key + two slots, two keys + a slot, ...)
+        for lab, items in base:
+            if len(items) == 2:
+                fam.append((lab, items, 0, None, {"_tag": "d4"}, 4))
+        for i, (lab, items) in enumerate(M.selections(3)):
+            if len(items) == 3 and i % 3 == 0:
+                fam.append((lab, items, 0, None, {}, 3))
     return fam
 
 
 def build(member):
     lab, items, placement, kt, envkw, depth = member
+    envkw = {k: v for k, v in envkw.items() if not k.startswith("_")}
     env = M.type_env(**dict(envkw, keytype=kt) if kt else envkw)
     S, root = M.place(items, placement, env, keytype=kt)
     return S, root
@@ -108,7 +117,7 @@ def run(tier):
              "conformance predicate.  Non-trivial = sequence with >= 1 key/section event whose reference "
              "verdict is decided (not UNSPEC) by a clause other than unknown-type; sequences are distinct "
              "by construction (BFS extends one representative per state).",
-        bounds={"schemas": len(fam), "max_items": 2, "depth": sorted(set(m[5] for m in fam)),
+        bounds={"schemas": len(fam), "max_items": 2 if tier == "quick" else 3, "depth": sorted(set(m[5] for m in fam)),
                 "menu": "full" if tier != "quick" else "reduced"},
         assumptions=["reference conformance predicate vz/ref/match.py (written from the statement)",
                      "unspecified regions u1-u3 (order-dependent slot search) are not compared",
